@@ -200,7 +200,9 @@ func (r *c14Run) scriptArg(s int) []byte {
 // guarded runs one call of the real code; a panic or a call that does not
 // return (a send on a full channel under the notifier's mutex) is recorded.
 func c14Guarded(f func() error) (err error, panicked, hung bool) {
-	return c14GuardedFor(5*time.Second, f)
+	// generous: on a loaded machine a bolt commit alone can take seconds; a
+	// call that really hangs (mutex held for ever) never returns
+	return c14GuardedFor(180*time.Second, f)
 }
 
 func c14GuardedFor(d time.Duration, f func() error) (err error, panicked, hung bool) {
@@ -400,6 +402,28 @@ func (r *c14Run) step(ev c14Event) (verifkit.Rec, bool) {
 				SpentOutPoint: &op, SpenderTxHash: &th, SpendingTx: tx,
 				SpenderInputIndex: 0, SpendingHeight: int32(c14Start + r.tip() + 1),
 			})
+		}
+
+	case "RelSpend":
+		// the backend's own filter hands over the confirmed spender of
+		// outpoint t with the height of its block on the active chain
+		call = func() error {
+			for k, b := range r.chain {
+				if v := b.inc[ev.T-1]; v != 0 {
+					return r.n.ProcessRelevantSpendTx(
+						btcutil.NewTx(r.u.spender(ev.T, v)), uint32(c14Start+k+1),
+					)
+				}
+			}
+			return fmt.Errorf("outpoint %d is not spent on the active chain", ev.T)
+		}
+
+	case "RelSpendAhead":
+		// ... of a block at tip+1 that the notifier has not connected
+		call = func() error {
+			return r.n.ProcessRelevantSpendTx(
+				btcutil.NewTx(r.u.spender(ev.T, ev.N)), uint32(c14Start+r.tip()+1),
+			)
 		}
 
 	default:
@@ -719,6 +743,7 @@ func TestVerifC14Free(t *testing.T) {
 			} else if focus && dice >= 14 {
 				dice = rng.Intn(14) // no later registrations or cancels
 			}
+			rel := !focus && nextReg > 1 && rng.Intn(8) == 0
 			switch {
 			case overdue || (dice < 3 && len(pc)+len(ps) > 0):
 				// answer a pending historical rescan (oldest first when overdue)
@@ -739,6 +764,17 @@ func TestVerifC14Free(t *testing.T) {
 							break
 						}
 					}
+				}
+			case rel:
+				// the backend's own RelevantTx notification for an outpoint
+				o := 1 + rng.Intn(nouts)
+				if kinds {
+					o = 1
+				}
+				if at(false, o) != 0 {
+					ev = c14Event{A: "RelSpend", T: o}
+				} else {
+					ev = c14Event{A: "RelSpendAhead", T: o, N: 1 + rng.Intn(2)}
 				}
 			case dice < 10:
 				inc := make([]int, nouts)
@@ -844,6 +880,16 @@ func TestVerifC14Free(t *testing.T) {
 			out.Emit(rec)
 			if !ok {
 				break
+			}
+			// details handed over by the backend may be deep already: the
+			// outstanding rescans of that outpoint are answered next (before
+			// the request can mature, as the property assumes)
+			if ev.A == "RelSpend" {
+				for x, p := range ps {
+					if run.u.sOut(x) == ev.T {
+						p.age = 2
+					}
+				}
 			}
 			// a returned HistoricalDispatch is an outstanding rescan
 			if hd := rec["hd"].([]int); hd[0] == 1 {
